@@ -240,6 +240,9 @@ func (s *c29sh) validGo() bool {
 				if n == "" {
 					return false
 				}
+				if b := s.kids[i]; (b.kind == "basic" && b.n == 26) || (b.kind == "ptr" && b.kids[0].kind == "basic" && b.kids[0].n == 26) {
+					return false // unsafe.Pointer cannot be embedded
+				}
 				if s.kids[i].kind == "ptr" && s.kids[i].kids[0].underlying().kind == "ptr" {
 					return false
 				}
@@ -627,6 +630,18 @@ func c29prepare(ops []string) {
 	var snippets []Snippet
 	var snipHist []int
 	var snipSrcs [][]string
+	// the compiled batch is bounded to ~300 packages: in large runs every k-th history gets the
+	// compiled-Go oracle, all histories keep the reflect / go/types / shadow oracles
+	nwith := 0
+	for _, h := range hists {
+		if _, srcs := c29histSources(h); len(srcs) > 0 {
+			nwith++
+		}
+	}
+	stride := (nwith + 299) / 300
+	if stride < 1 {
+		stride = 1
+	}
 	for hi, h := range hists {
 		o := &c29oracle{}
 		c29oracles = append(c29oracles, o)
@@ -636,6 +651,9 @@ func c29prepare(ops []string) {
 		}
 		o.std, o.stdErr = c29stdCheck(decls, srcs)
 		if o.std == nil {
+			continue
+		}
+		if hi%stride != 0 {
 			continue
 		}
 		var body strings.Builder
